@@ -137,27 +137,68 @@ func ruleWriteBlocksSummaries(r *core.Run, p *core.Prog) {
 	fTr := p.FieldObj(pkgGpfile, "Stats", "Traffic")
 	fCo := p.FieldObj(pkgGpfile, "Stats", "Counts")
 	var wbCall *ast.CallExpr
-	cl := func(n ast.Node, cond *bool) []ev {
+	// classify one statement; the roles (this block's traffic record and counters) are objects of the function the
+	// statement belongs to, so that a straight-line helper the summaries were moved into is read with its own parameters
+	var classify func(ci *types.Info, n ast.Node, traffic, counters types.Object, depth int) []ev
+	classify = func(ci *types.Info, n ast.Node, traffic, counters types.Object, depth int) []ev {
 		var out []ev
 		for _, c := range core.Calls(n, false) {
-			switch core.CallName(info, c) {
+			switch cn := core.CallName(ci, c); cn {
 			case pkgGpfile + ".GPFile.writeBlock":
 				wbCall = c
 				out = append(out, ev{label: "writeblock", node: c})
 			case "pkg/types.Counters.Add":
-				if rx, _ := core.MethodCall(info, c); rx != nil && core.SelField(info, rx) == fCo && len(c.Args) == 1 && core.ObjOf(info, c.Args[0]) == pCounters {
+				if rx, _ := core.MethodCall(ci, c); rx != nil && core.SelField(ci, rx) == fCo && len(c.Args) == 1 && core.ObjOf(ci, c.Args[0]) == counters {
 					out = append(out, ev{label: "counts", node: c})
 				} else {
 					out = append(out, ev{label: "counts?", node: c})
 				}
+			case pkgGpfile + ".TrafficMetadata.Add", "builtin.append":
+			default:
+				// a straight-line module helper that receives this block's values: read its statements in place
+				fo, _ := core.Callee(ci, c).(*types.Func)
+				h := p.FnOf(fo)
+				if h == nil || depth > 1 {
+					continue
+				}
+				var ht, hc types.Object
+				hs := h.Obj.Type().(*types.Signature)
+				for ai, a := range c.Args {
+					if ai >= hs.Params().Len() {
+						break
+					}
+					if o := core.ObjOf(ci, a); o != nil && o == traffic {
+						ht = hs.Params().At(ai)
+					} else if o != nil && o == counters {
+						hc = hs.Params().At(ai)
+					}
+				}
+				if ht == nil && hc == nil {
+					continue
+				}
+				straight := true
+				for _, st := range h.Decl.Body.List {
+					switch st.(type) {
+					case *ast.AssignStmt, *ast.ExprStmt, *ast.IncDecStmt, *ast.DeclStmt:
+					default:
+						straight = false
+					}
+				}
+				if !straight {
+					out = append(out, ev{label: "counts?", node: c}) // summaries handled by a helper with control flow: not read
+					continue
+				}
+				for _, st := range h.Decl.Body.List {
+					out = append(out, classify(h.Info(), st, ht, hc, depth+1)...)
+				}
 			}
 		}
 		if a, ok := n.(*ast.AssignStmt); ok && len(a.Lhs) == 1 && len(a.Rhs) == 1 {
-			switch core.SelField(info, a.Lhs[0]) {
+			switch core.SelField(ci, a.Lhs[0]) {
 			case fBT:
 				okApp := false
-				if c, ok := a.Rhs[0].(*ast.CallExpr); ok && core.CallName(info, c) == "builtin.append" && len(c.Args) == 2 &&
-					core.SelField(info, c.Args[0]) == fBT && core.ObjOf(info, c.Args[1]) == pTraffic {
+				if c, ok := a.Rhs[0].(*ast.CallExpr); ok && core.CallName(ci, c) == "builtin.append" && len(c.Args) == 2 &&
+					core.SelField(ci, c.Args[0]) == fBT && core.ObjOf(ci, c.Args[1]) == traffic {
 					okApp = true
 				}
 				if okApp {
@@ -167,8 +208,8 @@ func ruleWriteBlocksSummaries(r *core.Run, p *core.Prog) {
 				}
 			case fTr:
 				okAdd := false
-				if c, ok := a.Rhs[0].(*ast.CallExpr); ok && core.CallName(info, c) == pkgGpfile+".TrafficMetadata.Add" && len(c.Args) == 1 && core.ObjOf(info, c.Args[0]) == pTraffic {
-					if rx, _ := core.MethodCall(info, c); rx != nil && core.SelField(info, rx) == fTr {
+				if c, ok := a.Rhs[0].(*ast.CallExpr); ok && core.CallName(ci, c) == pkgGpfile+".TrafficMetadata.Add" && len(c.Args) == 1 && core.ObjOf(ci, c.Args[0]) == traffic {
+					if rx, _ := core.MethodCall(ci, c); rx != nil && core.SelField(ci, rx) == fTr {
 						okAdd = true
 					}
 				}
@@ -181,6 +222,7 @@ func ruleWriteBlocksSummaries(r *core.Run, p *core.Prog) {
 		}
 		return out
 	}
+	cl := func(n ast.Node, cond *bool) []ev { return classify(info, n, pTraffic, pCounters, 0) }
 	ts, ok := traces(f, g, cl, 5000)
 	if !ok {
 		r.Undecided(rule, "WriteBlocks:paths", where, "too many paths")
@@ -495,6 +537,7 @@ func ruleMetaAtomic(r *core.Run, p *core.Prog) {
 	fMeta := p.FieldObj(pkgGpfile, "GPDir", "metaPath")
 	var tmp types.Object
 	calls := map[string]*ast.CallExpr{}
+	helperRename := map[*ast.CallExpr]*core.Fn{} // os.Rename calls found inside helpers -> the helper
 	cl := func(n ast.Node, cond *bool) []ev {
 		var out []ev
 		for _, c := range core.Calls(n, false) {
@@ -541,6 +584,25 @@ func ruleMetaAtomic(r *core.Run, p *core.Prog) {
 				out = append(out, ev{label: "direct-write", node: c})
 			case (name == "os.Remove" || name == "os.RemoveAll" || name == "os.Truncate") && len(c.Args) >= 1 && core.MentionsField(info, c.Args[0], fMeta):
 				out = append(out, ev{label: "unlink-meta", node: c})
+			default:
+				// the trailing directory rename may live in a helper of the package: its os.Rename counts at the call
+				if fo, ok := core.Callee(info, c).(*types.Func); ok && fo.Pkg() != nil && strings.HasSuffix(fo.Pkg().Path(), pkgGpfile) {
+					if h := p.FnOf(fo); h != nil && h.Obj != f.Obj {
+						hi := h.Info()
+						for _, hc := range core.Calls(h.Decl.Body, false) {
+							if core.CallName(hi, hc) != "os.Rename" || len(hc.Args) != 2 {
+								continue
+							}
+							if core.MentionsField(hi, hc.Args[0], fMeta) || core.MentionsField(hi, hc.Args[1], fMeta) {
+								out = append(out, ev{label: "rename-meta?", node: c})
+								continue
+							}
+							calls["rename-dir"] = c
+							helperRename[hc] = h
+							out = append(out, ev{label: "rename-dir", node: c})
+						}
+					}
+				}
 			}
 		}
 		return out
@@ -593,7 +655,17 @@ func ruleMetaAtomic(r *core.Run, p *core.Prog) {
 			continue
 		}
 		use, why := core.ErrDisposition(info, f.Decl.Body, c)
-		r.Check(rule, "writeMetadataAtomic:"+step+"-error-aborts", p.Rel(c.Pos()), use == core.ErrChecked || use == core.ErrReturned, "a failing "+step+" must abort the commit ("+why+")")
+		okD := use == core.ErrChecked || use == core.ErrReturned
+		if step == "rename-dir" {
+			// when the rename lives in a helper, the helper must hand its error on as well
+			for hc, h := range helperRename {
+				hu, hw := core.ErrDisposition(h.Info(), h.Decl.Body, hc)
+				if hu != core.ErrChecked && hu != core.ErrReturned {
+					okD, why = false, "in "+h.Name+": "+hw
+				}
+			}
+		}
+		r.Check(rule, "writeMetadataAtomic:"+step+"-error-aborts", p.Rel(c.Pos()), okD, "a failing "+step+" must abort the commit ("+why+")")
 	}
 	// nobody else writes the metadata file
 	bad = ""
